@@ -1,0 +1,28 @@
+//go:build verif
+
+// Contracts for package ipldbindcode used by property C14 (comment-only; read by /verif/vcgo, build tag verif).
+package ipldbindcode
+
+// The two checksums are uninterpreted: crc64sum(b) / fnvsum(b) name "the CRC64-ISO / FNV-1a-64 value of the bytes of b at
+// the time of the call" (the engine treats an uninterpreted spec function as a function of its argument VALUE, i.e. of the
+// slice header; it is used only to connect the value checked by VerifyHash with the hash stored in the first frame, the
+// strength of the checksums is not a deductive matter). The bodies of checksumCrc64 / checksumFnv are only calls into
+// hash/crc64 and hash/fnv, so they are trusted.
+//@ spec func crc64sum(b []byte) uint64
+//@ spec func fnvsum(b []byte) uint64
+
+//@ func checksumCrc64
+//@   mode int
+//@   trusted
+//@   ensures result == crc64sum(buf)
+
+//@ func checksumFnv
+//@   mode int
+//@   trusted
+//@   ensures result == fnvsum(data)
+
+// VerifyHash accepts exactly the payloads whose CRC64 or (legacy) FNV checksum equals the recorded hash.
+//@ func VerifyHash
+//@   mode int
+//@   pure
+//@   ensures (result == nil) == (crc64sum(data) == hash || fnvsum(data) == hash)
